@@ -33,6 +33,18 @@ Partner(form, lower) ==
 SmallVals == {Zero, Big(-1, 7, 0), Big(1, 8, -1)}
 FmtLows == {Big(-1, 7, 0), Zero, Big(-1, 15, 0)}
 FmtUps  == {Big(1, 7, -1), Big(1, 8, -1), Big(1, 15, -1)}
+\* fmt = "shared": the integer is the property n of a definition N and the unit's x is {allOf: [{$ref N}, {m: string}]}:
+\* the generator visits the node n twice (once for N, once for the merged struct)
+SharedUps == FmtUps \cup {Big(1, 7, 0), Big(1, 8, 0)}
+SharedUnit(leaf, fl, vals) ==
+  [prop |-> "C15", pos |-> "allofshared",
+   schema |-> ("type" :> <<"object">>)
+              @@ ("properties" :> <<[k |-> "x", s |-> [allOf |-> <<[ref |-> [k |-> "defs", n |-> "N"]],
+                                                                  ("type" :> <<"object">>) @@ ("properties" :> <<[k |-> "m", s |-> [type |-> <<"string">>]]>>)>>]]>>)
+              @@ ("required" :> <<"x">>),
+   defs |-> <<[k |-> "N", s |-> ("type" :> <<"object">>) @@ ("properties" :> <<[k |-> "n", s |-> leaf]>>)]>>,
+   docs |-> [i \in DOMAIN vals |-> JObj(<<KV("x", JObj(<<KV("n", vals[i])>>))>>)] \o <<JObj(<<KV("x", JObj(<<>>))>>), JObj(<<>>)>>,
+   opts |-> [minSizedInts |-> fl], nobuild |-> <<>>]
 
 Side(form, v, lower) ==
   LET inc == IF lower THEN "minimum" ELSE "maximum"
@@ -45,7 +57,7 @@ Side(form, v, lower) ==
 
 Unit(lf, uf, fl, lv, uv) ==
   LET leaf == ("type" :> <<"integer">>) @@ Side(lf, lv, TRUE) @@ Side(uf, uv, FALSE)
-              @@ (IF fmt = "none" THEN <<>> ELSE "format" :> fmt)
+              @@ (IF fmt \in {"none", "shared"} THEN <<>> ELSE "format" :> fmt)
       docs == SetToSeq({x \in DocVals : InInt64(x)})
       ty == MinIntType(PMin(leaf), PMax(leaf), PEx(leaf, "exclusiveMinimum"), PEx(leaf, "exclusiveMaximum"), {})
       \* a bound that is not removed is emitted as a constant compared with a field of the chosen type
@@ -56,15 +68,19 @@ Unit(lf, uf, fl, lv, uv) ==
       tyD == MinIntType(PMin(leaf), PMax(leaf), PEx(leaf, "exclusiveMinimum"), PEx(leaf, "exclusiveMaximum"), Devs)
       lowerLeftD == lf # "none" /\ ~tyD.rmin /\ ~InRange(tyD.ty, GoBound(lv, Devs))
       upperLeftD == uf # "none" /\ ~tyD.rmax /\ ~InRange(tyD.ty, GoBound(uv, Devs))
-  IN PosUnit("C15", "req", leaf, docs, JNull) @@ [opts |-> [minSizedInts |-> fl]]
+  IN IF fmt = "shared" THEN SharedUnit(leaf, fl, docs) ELSE
+     PosUnit("C15", "req", leaf, docs, JNull) @@ [opts |-> [minSizedInts |-> fl]]
      @@ [nobuild |-> (IF fl /\ (lowerLeft \/ upperLeft) THEN <<"SizedBoundConstantOverflows">> ELSE <<>>)
                      \o (IF fl /\ (lowerLeftD \/ upperLeftD) /\ ~(lowerLeft \/ upperLeft) THEN <<"Float64Bounds">> ELSE <<>>)]
 
 u == Unit(lowForm, upForm, flag, vs[1], vs[2])
 Set == vs # <<>>
 
+Shared(unit) == unit.pos = "allofshared"
+SharedLeaf(unit) == unit.defs[1].s.properties[1].s
 ImplAccepts(unit, d, D) ==
-  ImplPos(unit, d, LAMBDA v : ImplSizedAccepts(Leaf(unit), v, unit.opts.minSizedInts, D))
+  IF Shared(unit) THEN ImplSharedPos(d, SharedLeaf(unit), unit.opts.minSizedInts, D)
+  ELSE ImplPos(unit, d, LAMBDA v : ImplSizedAccepts(Leaf(unit), v, unit.opts.minSizedInts, D))
 
 Agree(unit, D) ==
   \A i \in DOMAIN unit.docs :
@@ -74,6 +90,7 @@ Agree(unit, D) ==
 \* the chosen type can represent every admitted integer and is the narrowest signed or unsigned that can
 Admitted(s, x) == NumOK(s, x, {})
 TypeOK(unit, D) ==
+  Shared(unit) \/
   LET s == Leaf(unit)
       r == MinIntType(PMin(s), PMax(s), PEx(s, "exclusiveMinimum"), PEx(s, "exclusiveMaximum"), D)
   IN \A i \in DOMAIN unit.docs :
@@ -87,15 +104,16 @@ DesignOK == Set => LET unit == u IN Agree(unit, {}) /\ TypeOK(unit, {})
 AsIsOK   == Set => LET unit == u IN (unit.opts.minSizedInts \/ Agree(unit, Devs))
 
 Init == /\ lowForm \in Forms \cup TwiceForms /\ upForm \in Forms \cup TwiceForms /\ flag \in BOOLEAN /\ vs = <<>>
-        /\ fmt \in {"none", "int32", "int64"}
+        /\ fmt \in {"none", "int32", "int64", "shared"}
         /\ (lowForm \in TwiceForms => upForm \in {"none", "incl"}) /\ (upForm \in TwiceForms => lowForm \in {"none", "incl"})
         /\ (fmt # "none" => lowForm = "incl" /\ upForm = "incl")
 Twice == lowForm \in TwiceForms \/ upForm \in TwiceForms
 Pick == /\ vs = <<>>
         /\ vs' \in (IF lowForm = "none" THEN {Zero} ELSE IF fmt # "none" THEN FmtLows
                      ELSE IF Twice /\ lowForm \notin TwiceForms THEN SmallVals ELSE BoundVals)
-                 \X (IF upForm = "none" THEN {Zero} ELSE IF fmt # "none" THEN FmtUps
+                 \X (IF upForm = "none" THEN {Zero} ELSE IF fmt = "shared" THEN SharedUps ELSE IF fmt # "none" THEN FmtUps
                      ELSE IF Twice /\ upForm \notin TwiceForms THEN SmallVals ELSE BoundVals)
+        /\ (fmt = "shared" => vs' \in FmtLows \X SharedUps)
         /\ UNCHANGED <<lowForm, upForm, flag, fmt>>
 Next == Pick
 Spec == Init /\ [][Next]_vars
